@@ -855,7 +855,13 @@ func (ctx Ctx) structSelector(info structTypeInfo, e *ast.SelectorExpr) coq.Stru
 func (ctx Ctx) compositeLiteral(e *ast.CompositeLit) coq.Expr {
 	if _, ok := ctx.typeOf(e).Underlying().(*types.Slice); ok {
 		if len(e.Elts) == 0 {
-			elemTy := ctx.coqType(e.Type).(coq.SliceType).Value
+			var elemTy coq.Type
+			if sliceTy, ok := ctx.coqType(e.Type).(coq.SliceType); ok {
+				elemTy = sliceTy.Value
+			} else {
+				// a named slice type: take the element type from the type checker
+				elemTy = ctx.coqTypeOfType(e, sliceElem(ctx.typeOf(e).Underlying()))
+			}
 			zeroLit := coq.IntLiteral{Value: 0}
 			return coq.NewCallExpr(coq.GallinaIdent("NewSlice"), elemTy, zeroLit)
 		}
